@@ -208,6 +208,12 @@ def one(ctx: Ctx, cs, n_triples=110):
         if err is not None or out != default:
             ctx.violation('explicit-default-differs', f'dumps with explicit defaults {sorted(v)} '
                           f'{"raised " + repr(err) if err else "differs from dumps(doc)"}', dict(case, options=str(v)))
+    # option objects built once and reused for every document of the run (the default object and a few plain selections)
+    for okw in ({}, {'spine_types': ['**kern']}, {'spine_ids': [0]}, {'exclude': {TC.DECORATION}, 'encoding': kp.Encoding.bEkern},
+                {'include': [TC.CORE, TC.SIGNATURES, TC.BARLINES], 'encoding': kp.Encoding.eKern}):
+        ref, rerr = kpx.dumps(d, **okw)
+        ctx.ev()
+        kpx.fixed_options_check(ctx, d, okw, ref, rerr, dict(case, options=str(okw)))
     for t in range(n_triples):
         inc, exc_ = rand_sel(rng)
         sel = CT.valid(inc, exc_)
